@@ -1,13 +1,20 @@
 import FparserModel.Wire
+import FpDriver.Splitline
 
 /-! dispatcher: one handler per model; each handler lives in FpDriver/<Model>.lean -/
 namespace FpDriver
 open Fp.Wire
 
+def handlers : List (String → List String → Option String) :=
+  [FpDriver.Splitline.handle]
+
 def dispatch (line : String) : String :=
   match fields line with
   | "ping" :: rest => "OK\t" ++ "\t".intercalate rest
-  | cmd :: _ => "ERR\t" ++ enc ("unknown command " ++ cmd)
+  | cmd :: rest =>
+    match handlers.findSome? (fun h => h cmd rest) with
+    | some r => r
+    | none => "ERR\t" ++ enc ("unknown command " ++ cmd)
   | [] => "ERR"
 
 end FpDriver
